@@ -6,7 +6,7 @@ for d in sorted(glob.glob("/verif/seeded/*/")):
     meta_p = os.path.join(d, "meta.json")
     meta = json.load(open(meta_p))
     assert subprocess.run(["git", "-C", "/repo", "status", "--short"], capture_output=True, text=True).stdout.strip() == "", "/repo not clean"
-    p = subprocess.run(["/verif/tools/seedcheck.py", os.path.join(d, "patch.diff"), "--in-repo", "--json"], capture_output=True, text=True, cwd="/verif")
+    p = subprocess.run(["/verif/tools/seedcheck.py", os.path.join(d, "patch.diff"), "--json"] + (["--in-repo"] if "--in-repo" in sys.argv else []), capture_output=True, text=True, cwd="/verif")
     res = json.loads(p.stdout.strip().splitlines()[-1])
     assert subprocess.run(["git", "-C", "/repo", "status", "--short"], capture_output=True, text=True).stdout.strip() == "", "/repo not restored"
     prop = meta["breaks_property"]
